@@ -60,7 +60,7 @@ type c04Result struct {
 // HarnessC04_Concurrent: one goroutine sends requests, another reads and decodes the
 // responses on the same connection; every schedule of their synchronisation operations.
 func HarnessC04_Concurrent() {
-	nreq := 1 + vChoice(2)
+	nreq := 1 + vChoice(2+vTier())
 	t := &answeringTransport{ready: make(chan []byte, 4), consumed: make(chan struct{}, 4)}
 	t.slow = vChoice(2) == 1
 	// reversed: both requests are pipelined and the peer answers the second one first
